@@ -68,6 +68,9 @@ structure Input where
   call : Call
   /-- issued through `create_ecp_authn_request_response` -/
   ecp : Bool := false
+  /-- content shape: the identity (resp. the identity of an advice assertion handed in) has no attribute -/
+  identityEmpty : Bool := false
+  adviceIdentityEmpty : Bool := false
   rc : Recipient := {}
   tamper : Bool := false
   cfg : Sp.Cfg := {}
@@ -76,7 +79,10 @@ structure Input where
   content : Sp.Assertion := {}
 deriving Repr, Inhabited
 
-def Input.outerHasAttrs (i : Input) : Bool := !i.call.pefim
+def Input.outerHasAttrs (i : Input) : Bool := !i.call.pefim && !i.identityEmpty
+/-- under PEFIM the identity's values live in the advice assertion -/
+def Input.adviceHasAttrs (i : Input) : Bool :=
+  if i.call.pefim then !i.identityEmpty else i.call.extraAdvice && !i.adviceIdentityEmpty
 def Input.hasAdvice (i : Input) : Bool := i.call.advice.isSome
 
 /-! ### the model's observation -/
@@ -114,7 +120,7 @@ def spObs (i : Input) (s : Seen) (out : Sp.Outcome) : SpObs :=
       nameIdOk := o.nameId == i.content.subject.bind (·.nameId)
       assertionOk := true
       avaOuter := if i.outerHasAttrs then .full else .none
-      avaAdvice := if i.hasAdvice && s.adviceVisible then .full else .none }
+      avaAdvice := if i.adviceHasAttrs && s.adviceVisible then .full else .none }
   | .noIdentity => { kind := .none }
   | .rejected _ => { kind := .rejected }
 
@@ -136,7 +142,7 @@ def observe (i : Input) : Obs :=
     { issued := true
       ops := iss.ops
       wire := wireObs iss.wire
-      leak := clearOf i.outerHasAttrs iss.wire
+      leak := clearOf i.outerHasAttrs i.adviceHasAttrs iss.wire
       tampered := i.tamper && iss.wire.hasCiphertext
       sp := spObs i (receive i.rc (i.sent iss.wire)) (i.outcome iss.wire) }
 
@@ -222,7 +228,7 @@ def specRecover (i : Input) (o : Obs) : Bool :=
     (o.wire.advice != .sealed || keyHeld i.rc o.wire.adviceKey) && plainAccepted i) ||
   (o.sp.kind == .identity && o.sp.nameIdOk && o.sp.assertionOk &&
    o.sp.avaOuter == (if i.outerHasAttrs then .full else .none) &&
-   o.sp.avaAdvice == (if i.hasAdvice then .full else .none))
+   o.sp.avaAdvice == (if i.adviceHasAttrs then .full else .none))
 
 /-- S6: without the matching key nothing of what was sealed is obtained. -/
 def specWrongKey (i : Input) (o : Obs) : Bool :=
